@@ -89,8 +89,12 @@ class code1:
         # a: alpha variation
         # h: histogram affected by modifier
         # b: bin of histogram
+        # |alpha| written with the same comparison that selects the base, so that
+        # automatic differentiation at alpha == 0 follows the selected (down) branch
         exponents = tensorlib.einsum(
-            'sa,shb->shab', tensorlib.abs(alphasets), self.broadcast_helper
+            'sa,shb->shab',
+            tensorlib.where(alphasets > 0, alphasets, -alphasets),
+            self.broadcast_helper,
         )
         masks = tensorlib.astensor(
             tensorlib.einsum(
